@@ -9,7 +9,8 @@
     theorems hold for ALL their values. *)
 From Coq Require Import List ZArith Permutation.
 From V Require Import Gen.Params Lib.Hex Wire.Varint UFrames.Model UFrames.ProofsBase UFrames.Proofs UFrames.ProofsFlight
-  UFrames.ProofsCounts UFrames.ProofsLength UFrames.ProofsValidate UFrames.ScramModel UFrames.ProofsSni UFrames.ProofsScram.
+  UFrames.ProofsCounts UFrames.ProofsLength UFrames.ProofsValidate UFrames.ScramModel UFrames.ProofsSni UFrames.ProofsScram
+  UDial.Retx UPacker.Model UFrames.OnWire UFrames.ProofsOnWire UFrames.ProofsOnWireFlight.
 Import ListNotations.
 Open Scope Z_scope.
 
@@ -188,7 +189,7 @@ Theorem C09_scrambler_exact : forall sc ops,
   | Ok (s, W, fs) =>
     Forall (true_frame W) fs /\
     (has_data s = false ->
-     (scr s = true /\ wo s = 0 /\ c0s s = Inv) \/ (forall i, 0 <= i < zlen W -> covers fs i))
+     (scr s = true /\ wo s = 0 /\ c0s s = Inv) \/ (forall i, 0 <= i < zlen W -> ProofsScram.covers fs i))
   | _ => False
   end.
 Proof. exact stream_exact. Qed.
@@ -204,7 +205,7 @@ Theorem C09_default_splitter : forall ops,
   Forall op_ok ops ->
   match run (init false) [] [] ops with
   | Ok (s, W, fs) =>
-    Forall (true_frame W) fs /\ (has_data s = false -> forall i, 0 <= i < zlen W -> covers fs i)
+    Forall (true_frame W) fs /\ (has_data s = false -> forall i, 0 <= i < zlen W -> ProofsScram.covers fs i)
   | _ => False
   end.
 Proof. exact default_splitter_exact. Qed.
@@ -288,3 +289,119 @@ Example C09_validate_rejects_former_witnesses :
   validate [[6; 0; 224; 0; 0; 0; 0; 0; 0; 0]] [0] 20 = 3.
 Proof. exact validate_rejects_former_witnesses. Qed.
 Print Assumptions C09_validate_rejects_former_witnesses.
+
+(** * Round 3: the whole flight on the wire, and every retransmission
+
+    Composition of C09's builder theorems with C10's model of the first flight
+    ([UPacker.Model.flight]: which CRYPTO frames the packer pops for each datagram, unit
+    `upacker`) and C02's model of the Initial retransmission bookkeeping ([UDial.Retx.rrun]:
+    losses, acknowledgements, packing calls, and [marshal_path]: sent as packed or re-framed by
+    the builder, unit `udial`), through [UFrames.OnWire.marshal] — what
+    uPacketPacker.MarshalInitialPacketPayload puts into one packet for each in-tree builder kind
+    (unit `uwire` replays it on the real packer, whole flights and retransmissions).
+
+    Reading guide.  [sb]: the spec's FrameBuilder (pass-through / non-empty QUICFrames /
+    QUICRandomFrames or QUICMultiDatagramFrames / a flight builder).  [packet_exact hello fs ws]:
+    the CRYPTO frames of packet [ws] lie inside the ClientHello, carry its bytes at their absolute
+    offsets, and cover exactly the ranges [fs] the packer took for the packet; PADDING lengths are
+    non-negative.  Hypotheses that remain ([sb_ok]): a pass-through spec needs
+    |hello| <= 65535 (QUICFrames.build searches the lowest offset from math.MaxUint16); a
+    non-empty QUICFrames layout must tile every slice it fits ([layout_fits] = the packer's
+    quicFramesLayoutFits; a layout that fits but does not tile holds bytes back — outside the
+    property's quantifier, C09_quicframes_tiling); random builders have parameters in their
+    fields' ranges.  |hello| <= 2^62-1 throughout (2^48 for planned flights).
+
+    I.   First flight, per-datagram builders, for every packer configuration [c] and payload
+         length oracle [plens] of C10's flight model: the frames popped for the datagrams are, in
+         order, a chain of non-empty ranges from 0 inside the hello, so the datagrams' CRYPTO
+         frames partition [0,E), E = bytes popped (E = |hello| exactly when the flight drained
+         the stream: C10's budgets guarantee at least one byte per datagram, its model stops
+         after 10 datagrams); each datagram is [packet_exact] for every datagram index and both
+         oracles, never panics, and can only fail for a random builder — after the dial accepted
+         the builder ([dial_check], the repair C09-validate-random-frames-at-dial) only by the
+         randomness source's own failure.
+    II.  First flight planned by a flight builder and accepted by validateInitialFlight: complete,
+         true bytes (C09_flight_validated_complete), and the ranges registered for loss recovery
+         lie inside the hello.  A rejected plan sends nothing (C10: flightPlanned yields [DGErr 2]).
+    III. Every history of losses, acknowledgements and packing calls after a first flight whose
+         registered ranges lie in the hello and cover [0,n): no packing call errs, every byte
+         stays acknowledged, outstanding or queued (C02_initial_retx_complete), and every packet
+         the history produces is [packet_exact] for the ranges it took — whatever the datagram
+         index, the PING flag and both oracles. *)
+Theorem C09_flight_on_wire_complete : forall sb hello,
+  zlen hello <= maxVarInt8 -> sb_ok hello sb ->
+  (forall c plens, c_bk c <> BFlight ->
+     let fss := map dg_frames (flight c (zlen hello) plens) in
+     let E := total_len (concat fss) in
+     rchain 0 (concat fss) /\ Forall range_pos (concat fss) /\ Forall (range_in hello) (concat fss) /\ E <= zlen hello /\
+     (forall b, covers b (concat fss) <-> 0 <= b < E) /\
+     (forall fs idx bs us, In fs fss -> 0 <= idx ->
+        match marshal sb hello false idx fs false bs us with
+        | Ok (ws, _, _) => packet_exact hello fs ws
+        | Err c => exists specs, sb = SBRandom specs /\ (dial_check sb = Ok tt -> c = 6 \/ c = 90)
+        | Panic => False
+        end)) /\
+  (zlen hello <= 2 ^ 48 -> forall budgets wss,
+     ((exists dgs first, flight_frames dgs first hello = Ok wss) \/
+      (exists dgs first bs us bs' us', rff_build dgs first hello bs us = Ok (wss, bs', us'))) ->
+     validate (map encode wss) budgets (zlen hello) = 0 ->
+     (forall j, 0 <= j < zlen hello ->
+        exists ws o d, In ws wss /\ In (o, d) (wcryptos ws) /\ o <= j < o + zlen d /\ true_frame hello (o, d)) /\
+     Forall (fun ws => Forall (true_frame hello) (wcryptos ws) /\ wpads_ok ws) wss /\
+     Forall (rok hello false) (flat_map wpairs wss)) /\
+  (forall planned flight0 n ops st' rs,
+     Forall (rok hello (negb (planned || is_flight sb))) (flat_map snd flight0) ->
+     (forall b, 0 <= b < n -> covers b (flat_map snd flight0)) ->
+     rrun planned (layout_of sb) (RS flight0 [] []) ops = Some (st', rs) ->
+     existsb is_err rs = false /\
+     (forall b, 0 <= b < n -> covers b (all_ranges st')) /\
+     (forall pn popped, In (RPkt pn popped) rs -> forall idx ping bs us, 0 <= idx ->
+        match marshal sb hello planned idx popped ping bs us with
+        | Ok (ws, _, _) => packet_exact hello popped ws
+        | Err c => exists specs, sb = SBRandom specs /\ (dial_check sb = Ok tt -> c = 6 \/ c = 90)
+        | Panic => False
+        end)).
+Proof. exact flight_on_wire_complete. Qed.
+Print Assumptions C09_flight_on_wire_complete.
+
+(** One packet, as a statement of its own (the building block of the theorem above). *)
+Theorem C09_packet_on_wire_exact : forall sb hello planned idx frames ping bs us,
+  zlen hello <= maxVarInt8 -> sb_ok hello sb -> 0 <= idx ->
+  Forall (range_in hello) frames -> (planned || is_flight sb = false -> Forall range_pos frames) ->
+  match marshal sb hello planned idx frames ping bs us with
+  | Ok (ws, _, _) => packet_exact hello frames ws
+  | Err c => exists specs, sb = SBRandom specs
+  | Panic => False
+  end.
+Proof. exact marshal_exact. Qed.
+Print Assumptions C09_packet_on_wire_exact.
+
+(** A randomizing builder the dial accepted can no longer fail with a configuration error in the
+    middle of the flight (REFUTED before fixes/C09-validate-random-frames-at-dial: a
+    QUICMultiDatagramFrames with inverted bounds in its second entry failed after the first
+    datagram was on the wire — known finding uwire/late-config-error). *)
+Theorem C09_config_errors_only_at_dial : forall specs idx data base bs us c,
+  dial_check (SBRandom specs) = Ok tt -> Forall rf_wf specs -> 0 <= idx -> 0 <= base -> base + zlen data <= maxVarInt8 ->
+  md_build specs idx data base bs us = Err c -> c = 6 \/ c = 90.
+Proof. exact accepted_builder_only_oracle_errors. Qed.
+Print Assumptions C09_config_errors_only_at_dial.
+
+Example C09_config_error_regression :
+  dial_check (SBRandom [mkRF 0 2 1 3 0 0 0; mkRF 3 1 1 3 0 0 0]) = Err 1.
+Proof. exact eq_refl. Qed.
+Print Assumptions C09_config_error_regression.
+
+(** Non-vacuity: a two-datagram flight of a QUICMultiDatagramFrames under concrete oracles: the
+    hypotheses hold, the dial accepts, both datagrams are built, the second is exactly Length. *)
+Example C09_flight_on_wire_nonvacuous :
+  sb_ok ow_hello (SBRandom ow_specs) /\ dial_check (SBRandom ow_specs) = Ok tt /\
+  match marshal (SBRandom ow_specs) ow_hello false 0 [(0, 40)] false ow_bs ow_us with
+  | Ok (ws1, b1, u1) =>
+    match marshal (SBRandom ow_specs) ow_hello false 1 [(40, 20)] false b1 u1 with
+    | Ok (ws2, _, _) => zlen (encode ws2) = 80
+    | _ => False
+    end
+  | _ => False
+  end.
+Proof. exact flight_on_wire_example. Qed.
+Print Assumptions C09_flight_on_wire_nonvacuous.
